@@ -93,7 +93,7 @@ CHECKS["C17"] = {
     "assumptions": ["goroutine schedules of the real program are sampled, not owned", "wall-clock based: bounds are one block of slack below and two above", "runs are isolated in network namespaces (the program binds localhost:6060) or serialised with a lock"],
 }
 CHECKS["C18"] = rapid("TestC18",
-    "case = one sequence of 3-14 operations on the real timer: Reset(h,v,d) with d in {0, 1-30 ms, 40-120 ms}, Extend(0-40 ms), Sleep(0-45 ms), non-blocking read, blocking read; model with interval bounds (never early w.r.t. latest reset + duration + extensions; expiry within 2 s after the deadline, and not more than 35 ms late at the same operation in each of 4 executions of the sequence; zero duration fires at once; Height/View of the latest reset; no second expiry for one arming unless an Extend moved the deadline beyond the read); "
+    "case = one sequence of 3-14 operations on the real timer: Reset(h,v,d) with d in {0, 1-30 ms, 40-120 ms} (a third of them repeating the previous reset's arguments exactly), Extend(0-40 ms), Sleep(0-45 ms), non-blocking read, blocking read; model with interval bounds (never early w.r.t. latest reset + duration + extensions; expiry within 2 s after the deadline, and not more than 35 ms late at the same operation in each of 4 executions of the sequence; zero duration fires at once; Height/View of the latest reset; no second expiry for one arming unless an Extend moved the deadline beyond the read); "
     "non-trivial = the sequence contains a reset after an unread expiry, an extend after a zero-duration reset or an extend that re-arms a consumed timer; distinct = the rendered sequence",
     150, 1500, assumptions=["real time: only the 'never early' direction is strict; lateness: hard tolerance 2 s, 35 ms when it repeats in 4 executions; an Extend racing the deadline within the s0..s1 microseconds is not judged"])
 CHECKS["C20"] = {
